@@ -159,6 +159,7 @@ class Ctx:
     used: set = field(default_factory=set)                    # all declared names (variables, loop vars)
     frozen: set = field(default_factory=set)                  # names that must not be redeclared
     names: Optional[list] = None                              # restricted pool for declared names / loop variables
+    whole_array_odds: int = 3                                 # 1 in (n+1) symbolic arrays is the whole-array form {U}
     array_elems: Dict[str, list] = field(default_factory=dict)  # name -> (vtype, flat list of element expressions)
     depth: int = 3
     ascii_only: bool = True
@@ -554,7 +555,7 @@ def array_decl(draw, ctx, symbolic=None, name=None, max_rows=4, max_cols=5):
     with_shape = draw(st.booleans())
     sym = False
     if symbolic == "params" and ctx.params and draw(st.integers(0, 2)) == 0:
-        if draw(st.integers(0, 3)) == 0:
+        if draw(st.integers(0, ctx.whole_array_odds)) == 0:
             pn = draw(st.sampled_from(ctx.params))
             ctx.used.add(name)
             ctx.arrays[name] = (vtype, r, c, True)
@@ -693,11 +694,12 @@ class Cfg:
     array_args: bool = True
     max_mode: int = 12
     names: Optional[list] = None     # restricted pool for variable / loop / parameter names
+    whole_array_odds: int = 3
 
 
 @st.composite
 def script(draw, cfg=Cfg()):
-    ctx = Ctx(depth=cfg.depth, ascii_only=cfg.ascii_only, names=cfg.names)
+    ctx = Ctx(depth=cfg.depth, ascii_only=cfg.ascii_only, names=cfg.names, whole_array_odds=cfg.whole_array_odds)
     name = draw(ident())
     version = draw(st.one_of(st.sampled_from(["1.0", "0.0", "1.0", "12.5e-1", "1e5"]), real_lexeme()))
     target = ptype = None
